@@ -1,5 +1,8 @@
 import BctVerif.Lemmas.NbsObs
 import BctVerif.Lemmas.NbsStat
+import BctVerif.Lemmas.NbsTotal
+import BctVerif.Lemmas.NbsLink
+import BctVerif.Props.CoresNbs
 /-!
 # C19 — NBS reports true suprathreshold components and correct permutation p-values
 
@@ -15,6 +18,9 @@ Theorems about the executable model `Bct.Nbs` (all sizes, all data, all threshol
 * `pval_spec`       – `hits[c] = #{u : null[u] ≥ sizes[c]}` (p-value `hits[c]/k`), one per component, `|null| = k ≠ 0`
 * `null_spec`, `null_chain` – each null value is the largest component size (0 if none) of the thresholded matrix of
                       the data relabelled by the next recorded permutation / sign flips, consumed one after the other
+* `nbs_total` – the model returns on its whole domain (`GoodDraws`), so the statements above are unconditional there
+* `components_are_get_components`, `component_size_spec` – the component finder is the C16 `get_components` model; `sizes[t]` = suprathreshold connections inside component t
+* `observed_support_end_to_end` – the source's own statistic statements (ag-tgen's `link_tstat`) put a row into `ind_t` iff the model marks the cell
 * `tail_swap`, `subject_order_invariant_two_sample`, `subject_order_invariant_paired`
 -/
 open Relation Finset
@@ -255,6 +261,72 @@ theorem null_chain (p : Bool) (nx ny : ℕ) (x y : Cells n) (thr : ℚ) (tail : 
       cases h
       exact ⟨v, vs2, rest, rfl, h1, h2⟩
 
+/-! ## totality, the link to the `get_components` model of C16, and the source-level statistic -/
+
+/-- **totality**: on the whole domain (well-shaped stacks, ≥ 2 subjects per group, equal groups when paired, at least one
+suprathreshold connection, `k ≠ 0`, recorded draws of the right shape `GoodDraws`) the model returns, consuming exactly
+`k·(nx+ny)` (two-sample) or `k·nx` (paired) draws; with `pval_spec` / `null_spec` / `adj_spec` the statements about the
+output are therefore unconditional there.  (The other outcomes are the explicit errors compared with the real code:
+no suprathreshold connection / unequal paired groups → `BCTParamError`, `k = 0` → `ZeroDivisionError`.) -/
+theorem nbs_total (paired : Bool) (nx ny : ℕ) (x y : Cells n) (thr : ℚ) (tail : Tail) (k : ℕ) (ds : List ℕ)
+    (hx : wellShaped nx x = true) (hy : wellShaped ny y = true) (hnx : 2 ≤ nx) (hny : 2 ≤ ny)
+    (hpair : paired = true → nx = ny) (hedge : anyEdge (adj0 paired x y thr tail) = true) (hk : k ≠ 0)
+    (hd : GoodDraws paired nx ny k ds) :
+    ∃ o, nbs paired nx ny x y thr tail k ds = .ok (o, ds.drop (k * (if paired then nx else nx + ny))) ∧
+      o.obs = observe (adj0 paired x y thr tail) ∧ o.null.length = k ∧ o.hits.length = o.obs.sizes.length ∧
+      ∀ c (hc : c < o.obs.sizes.length) (hc' : c < o.hits.length),
+        o.hits[c] = (o.null.filter fun v => decide (o.obs.sizes[c] ≤ v)).length := by
+  obtain ⟨o, ho⟩ := Nbs.nbs_total paired nx ny x y thr tail k ds hx hy hnx hny hpair hedge hk hd
+  obtain ⟨h1, h2, -, -, h5, h6⟩ := pval_spec ho
+  exact ⟨o, ho, h1, h2, h5, h6⟩
+
+/-- the component finder inside the NBS model is, set for set and in the same order, the `get_components` model of C16
+(`Comp.unionSets`), so `Props/C16.lean` (`components_correct`, `sizes_correct`, `components_vs_distance`: classes of mutual
+reachability, BFS distance) applies to it; the components used by NBS are those with more than one node -/
+theorem components_are_get_components (A : AMat Int n) :
+    components A = Comp.unionSets A ∧
+    bigSets A = (Comp.unionSets A).filter (fun s => decide (1 < Comp.NSet.size s)) := by
+  refine ⟨components_eq_comp A, ?_⟩
+  unfold bigSets
+  rw [components_eq_comp]
+  refine List.filter_congr (fun s _ => ?_)
+  rw [sizeS_eq_comp]
+
+/-- **the component-size statistic**: `sizes[t]` is the number of suprathreshold connections `i < j` with both endpoints in the
+`t`-th component (with more than one node) returned by `get_components` -/
+theorem component_size_spec (A : AMat Int n) (hA : IsAdj A) (t : ℕ) (ht : t < (bigSets A).length) :
+    ∃ ht' : t < (observe A).sizes.length, (observe A).sizes[t] =
+      (((Finset.univ : Finset (Fin n × Fin n)).filter
+        (fun p => p.1 < p.2 ∧ A.get p.1 p.2 = 1 ∧ (bigSets A)[t][p.1] = true ∧ (bigSets A)[t][p.2] = true)).card : ℤ) := by
+  obtain ⟨ht', h⟩ := observe_size_card A hA t ht
+  refine ⟨ht', ?_⟩
+  rw [h]
+  congr 2
+  refine Finset.filter_congr (fun p _ => ?_)
+  rw [observe_label_iff A hA t ht p.1 p.2]
+
+/-- **observed support, end to end**: for the statements extracted from the current source of `nbs_bct` (the nested t
+functions and the lines that call them and build `ind_t`; `statOk`, `t2Ok`, `pairOk` are the decidable checks ag-tgen's
+translator obligations discharge on every run), the row of connection `i < j` is put into `ind_t` exactly when the model's
+adjacency output marks the cell — numbers read as reals, `Real.sqrt` -/
+theorem observed_support_end_to_end (s : CoreIR.Nbs.StatIR) (t2 : CoreIR.Nbs.T2IR) (pr : CoreIR.Nbs.PairIR)
+    (hs : CoreIR.Nbs.statOk s = true) (h2 : CoreIR.Nbs.t2Ok t2 = true) (hp : CoreIR.Nbs.pairOk pr = true)
+    (paired : Bool) (x y : Cells n) (thr : ℚ) (tail : Tail) (i j : Fin n) (hij : i < j)
+    (hx : 2 ≤ (x.get i j).length) (hy : 2 ≤ (y.get i j).length)
+    (hxy : paired = true → (x.get i j).length = (y.get i j).length) :
+    CoreIR.Nbs.runStat Cores.Nbs.realOps s t2 pr paired (Cores.Nbs.castL (x.get i j)) (Cores.Nbs.castL (y.get i j))
+        (Cores.Nbs.tailStr tail) (thr : ℝ)
+      = some (decide ((observe (adj0 paired x y thr tail)).adj.get i j ≠ 0)) := by
+  rw [Cores.Nbs.link_tstat s t2 pr hs h2 hp paired (x.get i j) (y.get i j) thr tail hx hy hxy]
+  congr 1
+  have h := (adj_spec paired x y thr tail).1 i j
+  have hji : ¬ j < i := not_lt_of_gt hij
+  simp only [hij, hji, true_and, false_and, or_false] at h
+  by_cases he : exceeds paired (x.get i j) (y.get i j) thr tail = true
+  · rw [he]; symm; exact decide_eq_true (h.mpr he)
+  · have he' : exceeds paired (x.get i j) (y.get i j) thr tail = false := by simpa using he
+    rw [he']; symm; exact decide_eq_false (fun hne => he (h.mp hne))
+
 /-! ## symmetries of the observed components -/
 
 /-- **tail_swap**: swapping the two groups together with the tail (`left ↔ right`), or under `both`,
@@ -294,6 +366,22 @@ example : (match nbs false 3 4 xs ys 2 .left 2 [0, 1, 2, 3, 4, 5, 6, 6, 5, 4, 3,
     | .ok (o, rest) => showMat o.obs.adj == "0,1,0,1,0,1,0,1,0" && o.obs.sizes == [2] && o.null == [2, 0]
         && o.hits == [1] && rest == []
     | .error _ => false) = true := by decide +kernel
+
+/-- non-vacuity from a recorded real run: `bct.nbs_bct(x, y, 2.0, k=4, tail='left', seed=Recorder(3))` on the stacks `xs`, `ys`
+above returned `pvals = [0.]`, `adj = [[0,1,0],[1,0,1],[0,1,0]]`, `null = [0,1,0,0]` and drew these four permutations;
+the model reproduces it, and the hypotheses of `nbs_total` hold for it -/
+def realDraws : List ℕ := [4, 6, 5, 3, 1, 0, 2, 6, 4, 1, 2, 3, 5, 0, 6, 1, 3, 4, 0, 5, 2, 3, 5, 4, 1, 2, 0, 6]
+
+example : (match nbs false 3 4 xs ys 2 .left 4 realDraws with
+    | .ok (o, rest) => showMat o.obs.adj == "0,1,0,1,0,1,0,1,0" && o.obs.sizes == [2] && o.null == [0, 1, 0, 0]
+        && o.hits == [0] && rest == []
+    | .error _ => false) = true := by decide +kernel
+
+example : wellShaped 3 xs = true ∧ wellShaped 4 ys = true ∧ anyEdge (adj0 false xs ys 2 .left) = true ∧
+    GoodDraws false 3 4 4 realDraws := by
+  refine ⟨by decide +kernel, by decide +kernel, by decide +kernel, ?_⟩
+  simp only [GoodDraws, realDraws]
+  decide +kernel
 
 example : IsAdj (adj0 false xs ys 2 .left) := adj0_isAdj _ _ _ _ _
 example : (adj0 false xs ys 2 .left).get 0 1 = 1 := by decide +kernel
